@@ -68,7 +68,7 @@ theorem fieldsFF_congr (f g : Ty → Val → Comp) (ro : ROpts) (ks : List Strin
       simp only
       split
       · rfl
-      · cases getDefault ro fl.dflt s with
+      · cases getDefaultAt false fl.defer ro fl.dflt s with
         | mk od s1 =>
           cases od with
           | none => simp only; rw [ih s1]
